@@ -264,8 +264,8 @@ type AuditInfo struct {
 	Theorems    []string `json:"theorems"`
 	Axioms      []string `json:"axioms"`
 	BadAxioms   []string `json:"bad_axioms"`
-	Broken      []string `json:"broken"`     // theorems / generated tie obligations that no longer check
-	BuildLog    string   `json:"build_log"`  // excerpt when broken
+	Broken      []string `json:"broken"`    // theorems / generated tie obligations that no longer check
+	BuildLog    string   `json:"build_log"` // excerpt when broken
 	CheckerCmd  string   `json:"checker_cmd"`
 	LeanChecker string   `json:"leanchecker"`
 	Facts       []string `json:"facts"` // regenerated-facts tie theorems
